@@ -82,7 +82,9 @@ class StreamBuffer:
         length = min(len(self.buffer), max_length)
         data = bytes(self.buffer[:length])
         del self.buffer[:length]
-        if len(data) < BUFFER_LOW_WATER:
+        if len(self.buffer) < BUFFER_HIGH_WATER:
+            # Judge by what is still held, not by what was just taken: with
+            # an exhausted flow control window every pop is (almost) empty.
             await self._paused.set()
         if len(self.buffer) == 0:
             await self._is_empty.set()
